@@ -13,6 +13,7 @@ CONSTANTS
   Types = {0, 90, 255}
   WithFill = TRUE
   WithMaxTx = TRUE
+  WithConc = TRUE
 VIEW cvars
 INVARIANTS TypeOK Inv_C33_WithinNetLimit Inv_EstimateBounded Inv_UndershootWithinMargin
 CHECK_DEADLOCK FALSE
